@@ -582,6 +582,8 @@ def continuation_claimed(cfg):
 
 def kind_name(cfg):
   k = cfg['kind']
+  if k == 'sched':
+    return 'sched'
   if k == 'dedup':
     return 'dedup(%s)' % kind_name(cfg['inner'])
   if k == 'evo':
@@ -804,8 +806,18 @@ class C15(Prop):
 
   DIMS = [[3], [4], [5], [7], [2, 2], [3, 2], [2, 3], [2, 2, 2], [4, 3], [3, 3], [5, 4], [6, 4]]
 
+  def gen_sched(self, rng):
+    phases = [[rng.randint(1, 5), rng.choice([['const', rng.randint(0, 4)], ['step']])]
+              for _ in range(rng.randint(1, 4))]
+    total = sum(p[0] for p in phases)
+    n = total + rng.randint(0, 4)
+    return {'algo': {'kind': 'sched', 'phases': phases}, 'dims': [1], 'events': [], 'n': n,
+            'k': rng.randint(0, n), 'stride': rng.weighted([(3, 1), (1, 2), (1, 3)])}
+
   def generate(self, rng, tier):
     n_cases = 100 if tier == 'quick' else 800
+    for _ in range(12 if tier == 'quick' else 150):
+      yield self.gen_sched(rng.fork())
     for _ in range(n_cases):
       dims = rng.choice(self.DIMS)
       size = 1
@@ -831,6 +843,9 @@ class C15(Prop):
     yield from self.generate(rng.fork(), tier)
 
   def model_request(self, case):
+    if is_sched(case):
+      live, rec = sched_steps(case)
+      return {'op': 'sched', 'phases': case['algo']['phases'], 'live': live, 'rec': rec}
     cfg = case['algo']
     world = world_of(case['dims'])
     if modelled_real(cfg):
@@ -855,6 +870,8 @@ class C15(Prop):
             'events': case['events'], 'm': m, 'cuts': list(case.get('cuts', []))}
 
   def project_impl(self, case, impl_out):
+    if is_sched(case):
+      return impl_out['model']
     if modelled_real(case['algo']) and 'model' in impl_out:
       view = nsga2_view if modelled_nsga2(case['algo']) else real_view
       return {'ks': [{'live': view(e['live']), 'rec': view(e['rec']), 'hist': e['hist'],
@@ -862,6 +879,8 @@ class C15(Prop):
     return Prop.project_impl(self, case, impl_out)
 
   def impl(self, case):
+    if is_sched(case):
+      return {'model': run_sched(case), 'log': [], 'n': 0}
     world = world_of(case['dims'])
     cfg = case['algo']
     ks, log = crash_points(world, cfg, case['events'], case.get('m', 3), case.get('feed', 'list'),
@@ -869,6 +888,17 @@ class C15(Prop):
     return {'model': {'ks': ks}, 'log': log, 'n': len(world.dnas)}
 
   def oracle(self, case, out):
+    if is_sched(case):
+      m = out['model']
+      tail = m['live'][len(m['live']) - len(m['rec']):]
+      if tail != m['rec']:
+        live_steps, rec_steps = sched_steps(case)
+        i = next(j for j, (x, y) in enumerate(zip(tail, m['rec'])) if x != y)
+        return {'signature': 'stepwise:phase-not-in-history',
+                'what': 'StepWise%s: at step %d the uninterrupted schedule gives %s, the schedule of an instance '
+                        'recovered at step %d gives %s' % (case['algo']['phases'], rec_steps[i], tail[i],
+                                                           case['k'], m['rec'][i])}
+      return None
     cfg = case['algo']
     fails = []
     log = out['log']
@@ -908,12 +938,16 @@ class C15(Prop):
     """At least one crash point with a proposal still in flight and at least one with a reward."""
     if 'model' not in out:
       return False
+    if is_sched(case):
+      return case['k'] > 0 and len(case['algo']['phases']) > 1
     ks = out['model']['ks']
     return (any(any(h[1] is None for h in e['hist']) for e in ks)
             and any(any(h[1] is not None for h in e['hist']) for e in ks))
 
   def describe(self, case, out):
     cfg = case['algo']
+    if is_sched(case):
+      return ['algo:sched', 'sched-phases:%d' % len(cfg['phases']), 'sched-stride:%d' % case.get('stride', 1)]
     h = ['algo:' + kind_name(cfg)]
     if 'model' not in out:
       return h + ['timeout']
@@ -944,6 +978,8 @@ class C15(Prop):
     return h
 
   def shrink_candidates(self, case):
+    if is_sched(case):
+      return
     ev = case['events']
     # shorter prefixes first (the failing crash point is usually early), then single-event removal
     for n in range(0, len(ev)):
@@ -979,6 +1015,28 @@ def feedback_straddles_chunks(case, log, k, n_hist):
       return True
     hi = max(hi, c)
   return False
+
+
+def is_sched(case):
+  return case['algo'].get('kind') == 'sched'
+
+
+def sched_steps(case):
+  live = list(range(0, case['n'], case.get('stride', 1)))
+  return live, [x for x in live if x >= case['k']]
+
+
+def run_sched(case):
+  """A scheduled hyper-parameter (`scalars.StepWise`) as the operators of an Evolution use it: evaluated
+  with the step of the current call.  live: one object called at every step of the run; rec: the fresh
+  object of an instance recovered at step k, first called at step k."""
+  from pyglove.ext import scalars
+
+  def build():
+    return scalars.StepWise([(l, scalars.STEP if pv[0] == 'step' else pv[1]) for l, pv in case['algo']['phases']])
+  live_steps, rec_steps = sched_steps(case)
+  a, b = build(), build()
+  return {'live': [a(x) for x in live_steps], 'rec': [b(x) for x in rec_steps]}
 
 
 def c15_auto(cfg):
